@@ -178,7 +178,7 @@ func genC19(seed uint64, index int, tier string) *run.Plan {
 	for i := 0; i < nalt; i++ {
 		alter := 0
 		if g.Intn(5) != 0 {
-			alter = 1 + g.Intn(20)
+			alter = 1 + g.Intn(21)
 		}
 		p.Faults = append(p.Faults, run.Fault{Kind: "alter", A: alter, B: g.Intn(1 << 16), C: g.Intn(8)})
 	}
@@ -210,7 +210,7 @@ func genC19(seed uint64, index int, tier string) *run.Plan {
 		at += d
 		srv := 0
 		if i > 0 && !poison && g.Intn(3) == 0 {
-			srv = 1 + g.Intn(2)
+			srv = 1 + g.Intn(3)
 		}
 		which := g.Intn(len(p.Faults))
 		if poison {
@@ -285,6 +285,13 @@ func execC19(t *testing.T, w *core.World, p *run.Plan, r *run.Result) {
 	}
 	lp, lf := int64(p.Get("life_payload_s", 300)), int64(p.Get("life_proof_s", 300))
 	servers := []*c19server{mk("secret-A", lp, lf), mk("secret-B", lp, lf), mk("secret-A", lp*10, lf*10)}
+	// ... and one that relies on the documented defaults (300 s / 300 s), built after the customised ones:
+	// options of one server must not leak into another
+	if ds, err := tonconnect.NewTonConnect(ex, "secret-A"); err == nil {
+		servers = append(servers, &c19server{srv: ds, secret: "secret-A", lifePayload: 300, lifeProof: 300})
+	} else {
+		w.Violate("harness-setup", "harness-setup", err.Error())
+	}
 	if len(w.Violations) > 0 {
 		return
 	}
@@ -368,7 +375,7 @@ func execC19(t *testing.T, w *core.World, p *run.Plan, r *run.Result) {
 		case 2:
 			proof.Proof.Domain = c19domains[(p.Get("domain", 0)+1)%len(c19domains)]
 		case 3:
-			proof.Proof.Timestamp += int64([]int{1, -1, 60, -3600}[aC%4])
+			proof.Proof.Timestamp += []int64{1, -1, 60, -3600, 1 << 32, -(1 << 32), 1 << 40, 1 << 62}[aC%8]
 		case 4:
 			if aC%2 == 0 {
 				proof.Proof.Payload = otherPayload
@@ -424,6 +431,12 @@ func execC19(t *testing.T, w *core.World, p *run.Plan, r *run.Result) {
 			resign(apriv)
 		case 19: // no state-init at all
 			proof.Proof.StateInit = ""
+		case 21:
+			// descriptor-level corruption of the state-init container (level mask, exotic flag, reference count,
+			// data length, exotic type of one cell)
+			if raw, err := base64.StdEncoding.DecodeString(proof.Proof.StateInit); err == nil {
+				proof.Proof.StateInit = base64.StdEncoding.EncodeToString(bocMutateDescriptor(raw, aB, aC, aB>>3))
+			}
 		case 20:
 			// a contract whose code is in the server's table of wallet codes but whose data layout it cannot read
 			// (the lockup wallet): no key can be taken from it. The attacker does not hold any key at all and
@@ -620,7 +633,7 @@ func execC19(t *testing.T, w *core.World, p *run.Plan, r *run.Result) {
 		if implAccept && !accept {
 			w.Violate("C19.accept", "C19.accept-wrong|"+strings.TrimSpace(reason), fmt.Sprintf("%s: accepted a proof the reference rejects (%s; executor mode %d key=%d; server %d at +%v)", alt, reason, ex.mode, p.Get("exec_key", 0), v.srv, v.at))
 		}
-		if !implAccept && accept && alter == 9 && !ex.answers() {
+		if !implAccept && accept && (alter == 9 || alter == 21) && !ex.answers() {
 			// a flipped bit of the state-init container can change parts of a cell the harness' level-0
 			// hasher does not model (level mask, stored hashes): the library may legitimately find that
 			// the container no longer hashes to the address. Only the accepting direction is judged here.
